@@ -67,6 +67,13 @@ namespace verif
         {
             return 0;
         }
+        // memory_stack: remember top() / has top() changed since (a request can move the stack on to its next block
+        // and still fail: the figures may look the same afterwards, the marker does not)
+        virtual void note_top() {}
+        virtual bool top_changed()
+        {
+            return false;
+        }
         virtual bool has_markers()
         {
             return false;
@@ -505,6 +512,15 @@ namespace verif
         {
             markers.push_back(a->top());
             return static_cast<int>(markers.size()) - 1;
+        }
+        std::vector<typename A::marker> noted;
+        void note_top() override
+        {
+            noted.assign(1, a->top());
+        }
+        bool top_changed() override
+        {
+            return !noted.empty() && !(noted[0] == a->top());
         }
         void unwind(int j) override
         {
